@@ -279,6 +279,15 @@ class Model:
 
     # ------------------------------------------------------------------ operators
     def binop(self, op: str, a: Any, b: Any, node) -> Any:
+        # frame (op) scalar: the operation applied to every column
+        fr = a if isinstance(a, Frame) else b if isinstance(b, Frame) else None
+        other = b if fr is a else a
+        if fr is not None and not isinstance(other, (Frame, Ser, list, dict)) and op in ("Add", "Sub", "Mult", "Div"):
+            ot = to_term(other)
+            left = fr is a
+            fn = {"Add": lambda t: T.add(t, ot), "Sub": (lambda t: T.sub(t, ot)) if left else (lambda t: T.sub(ot, t)), "Mult": lambda t: T.mul(t, ot),
+                  "Div": (lambda t: T.div(t, ot)) if left else (lambda t: T.div(ot, t))}[op]
+            return self.ops._wrap_all(fr, fn, node, f"frame {op} scalar")
         ser = next((x for x in (a, b) if isinstance(x, Ser)), None)
         ta, tb = self.as_ser_term(a), self.as_ser_term(b)
         if op == "Add":
